@@ -129,11 +129,13 @@ def run(model, col, tier):
     einit = ec.own_method("__init__")
     t = unparse(einit)
     col.check("self.__globalScope = globalScope" in t and "self.__functions = functions" in t, "R15.2", f"{VM}::ExecutionContext.__init__", "keeps the globals map and the function table it was given", None, VM, einit)
-    for meth, body in (("SetGlobal", f"self.{gfield}[globalVariableName] = value"), ("GetGlobal", f"return self.{gfield}[globalVariableName]")):
+    from ..sem import alpha as _alpha15
+
+    for meth, body in (("SetGlobal", f"self.{gfield}[p0] = p1"), ("GetGlobal", f"return self.{gfield}[p0]")):
         m = vmc.own_method(meth)
-        col.check(body in unparse(m), "R15.2", f"{VM}::VirtualMachine.{meth}", f"addresses this VM's globals map ({body})", f"{meth} does not address this VM's globals map", VM, m)
+        col.check(body == _alpha15(m), "R15.2", f"{VM}::VirtualMachine.{meth}", f"addresses this VM's globals map ({body})", f"{meth} does not address this VM's globals map", VM, m)
     inv = vmc.own_method("Invoke")
-    col.check("return self.__ctx.Invoke(functionName, **args)" in unparse(inv), "R15.2", f"{VM}::VirtualMachine.Invoke", "runs on this VM's execution context", None, VM, inv)
+    col.check(_alpha15(inv) == "return self.__ctx.Invoke(p0, **p1)", "R15.2", f"{VM}::VirtualMachine.Invoke", "runs on this VM's execution context", None, VM, inv)
     mlm = module_level_mutables(model, {VM})
     col.check(not mlm, "R15.2", f"{VM} has no module/class-level mutable state", "nothing mutable is bound at import time", f"module/class-level mutable objects: {[(n, w) for _, n, _, w in mlm]}: shared by every VM", VM, None)
     md = [x for x in mutable_defaults(model) if x[0] == VM]
